@@ -98,7 +98,15 @@ pub fn base_message(i: usize) -> Vec<u8> {
             out.extend(0u16.to_be_bytes());
             out
         }
-        8 => wire::query_full(id, &qn, qt, wire::C_CH, 0, None),
+        8 => {
+            // QCLASS CH: the first variants ask the malformed name-bearing RRsets of the CH zones
+            // for exactly their type, the later ones sweep names and types like the other shapes
+            const CH_PAIRS: &[(&str, u16)] = &[("badsrv.example.", 33), ("badmx.example.", wire::T_MX), ("badns.example.", wire::T_NS), ("badcname.example.", wire::T_A), ("example.", wire::T_MX), ("x.sub.example.", wire::T_A), ("alias.example.", wire::T_A), ("bada.example.", wire::T_ANY), ("example.", wire::T_ANY), ("badsrv.example.", wire::T_ANY)];
+            match CH_PAIRS.get(v) {
+                Some((n, t)) => wire::query_full(id, &wire::name(n), *t, wire::C_CH, 0, if v % 2 == 0 { None } else { Some(1232) }),
+                None => wire::query_full(id, &qn, qt, wire::C_CH, 0, None),
+            }
+        }
         9 => wire::query_full(id, &qn, qt, wire::C_ANY, 0, None),
         10 => wire::query_full(id, &qn, wire::T_SOA, wire::C_IN, ((v % 16) as u16) << 11, None),
         11 => {
@@ -242,7 +250,12 @@ fn build_rich_zone() -> Arc<quandary::db::HashMapTreeZone> {
 }
 /// A zone whose stored RDATA is itself malformed (the zone API accepts any octets).
 fn corrupt_zone() -> Arc<quandary::db::HashMapTreeZone> {
-    let mut z = qz::ZoneBuilder::new("example.", wire::C_IN);
+    corrupt_zone_in(wire::C_IN)
+}
+/// The same records in a zone of another class: what counts as structured RDATA (A, AAAA, WKS,
+/// SRV) depends on the class, and so does additional-section processing.
+fn corrupt_zone_in(class: u16) -> Arc<quandary::db::HashMapTreeZone> {
+    let mut z = qz::ZoneBuilder::new("example.", class);
     z.soa_ns("example.", 1);
     z.add("www.example.", wire::T_A, 60, &[10, 0, 0, 1]);
     z.add("badns.example.", wire::T_NS, 60, &[5, b'a', b'b']);
@@ -346,11 +359,15 @@ fn badsoa_zone() -> Arc<quandary::db::HashMapTreeZone> {
 /// random octets, a compression pointer, an over-long name or label - everything the public zone
 /// API accepts. The apex may lack SOA or NS or have them malformed.
 fn random_zone(apex: &str, owners: &[&str], seed: u64) -> Arc<quandary::db::HashMapTreeZone> {
+    random_zone_in(apex, owners, seed, wire::C_IN)
+}
+fn random_zone_in(apex: &str, owners: &[&str], seed: u64, class: u16) -> Arc<quandary::db::HashMapTreeZone> {
     use quandary::class::Class;
     use quandary::db::zone::GluePolicy;
     use quandary::rr::{Rdata, Ttl, Type};
     let mut r = SplitMix(seed ^ 0xC01_2A2A);
-    let mut zone = quandary::db::HashMapTreeZone::new(qz::qname(apex), Class::IN, if r.below(2) == 0 { GluePolicy::Narrow } else { GluePolicy::Wide });
+    let class = Class::from(class);
+    let mut zone = quandary::db::HashMapTreeZone::new(qz::qname(apex), class, if r.below(2) == 0 { GluePolicy::Narrow } else { GluePolicy::Wide });
     let types: &[u16] = &[wire::T_A, wire::T_AAAA, wire::T_NS, wire::T_CNAME, wire::T_MX, wire::T_SOA, wire::T_TXT, 33, 12, 13, 14, 11, 7, 99, 65280];
     let names: Vec<String> = owners.iter().map(|s| s.to_string()).chain(["elsewhere.".to_string(), ".".to_string(), "test.".to_string(), format!("ns.{apex}"), format!("a.b.c.{apex}")]).collect();
     let mut name_rdata = |r: &mut SplitMix| -> Vec<u8> {
@@ -381,7 +398,7 @@ fn random_zone(apex: &str, owners: &[&str], seed: u64) -> Arc<quandary::db::Hash
     };
     let mut add = |zone: &mut quandary::db::HashMapTreeZone, owner: &str, t: u16, rd: &[u8]| {
         if let (Ok(o), Ok(rd)) = (owner.parse::<Box<quandary::name::Name>>(), <&Rdata>::try_from(rd)) {
-            let _ = zone.add(&o, Type::from(t), Class::IN, Ttl::from(60), rd);
+            let _ = zone.add(&o, Type::from(t), class, Ttl::from(60), rd);
         }
     };
     let mut all_owners: Vec<String> = owners.iter().map(|s| s.to_string()).collect();
@@ -452,9 +469,11 @@ pub fn make_server_for(cfg: usize, msg: usize) -> Server<Cat> {
             let gl: Vec<&str> = QNAMES.iter().copied().filter(|q| q.ends_with(".glue.test.")).collect();
             c.insert(Entry::Loaded(random_zone("example.", &ex, (msg as u64) << 4 | cfg as u64), ()));
             c.insert(Entry::Loaded(random_zone("glue.test.", &gl, (msg as u64) << 4 | cfg as u64 | 0x100_0000), ()));
+            c.insert(Entry::Loaded(random_zone_in("example.", &ex, (msg as u64) << 4 | cfg as u64 | 0x200_0000, wire::C_CH), ()));
         }
         3 | 4 => {
             c.insert(Entry::Loaded(corrupt_zone(), ()));
+            c.insert(Entry::Loaded(corrupt_zone_in(wire::C_CH), ()));
             c.insert(Entry::Loaded(nosoa_zone(), ()));
             c.insert(Entry::Loaded(badsoa_zone(), ()));
         }
@@ -549,7 +568,7 @@ impl Prop for C01 {
         format!("{file}|{masked}")
     }
     fn rule() -> String {
-        format!("one execution = one (request shape, server configuration) pair: {} shapes quick / 1000 thorough (plain, EDNS with options and odd versions, big RRsets with swept payload sizes, TSIG-signed with known/unknown keys, truncated MACs and maximal 255-octet key/algorithm names, extra records in every section, compressed and mixed-case names, opcodes 0-15, QTYPE ANY/AXFR/IXFR/meta, QCLASS ANY/CH, NOTIFY/UPDATE-shaped, two questions, misplaced OPT/TSIG, header only, answers of more than 16 KiB made of name-bearing records, question-less requests with OPT (odd versions) or TSIG) x {} configurations (empty catalog; loaded/NotYetLoaded/FailedToLoad entries; zones with malformed stored RDATA, missing or malformed SOA; two configurations whose zones are drawn from a seed per request shape: every owner the corpus asks about holds 0-3 RRsets of assorted types with valid, cut, empty, random, pointer-bearing or over-long RDATA; key sets; RRL slip 0/1/2; payload 512/1232/65535); per pair, exhaustively: truncation to every length, at every offset substitution by 10 values, each header count set to 0/+1/0xffff, every RR's RDLENGTH set to 0..80, the advertised EDNS payload size set to every value 0..1400 (+ large ones), junk of 1/2/11/300 octets appended, tail duplicated, both transports; then seeded random pairs of those faults. Every pair is non-trivial and distinct by construction", 200, N_CFG)
+        format!("one execution = one (request shape, server configuration) pair: {} shapes quick / 1000 thorough (plain, EDNS with options and odd versions, big RRsets with swept payload sizes, TSIG-signed with known/unknown keys, truncated MACs and maximal 255-octet key/algorithm names, extra records in every section, compressed and mixed-case names, opcodes 0-15, QTYPE ANY/AXFR/IXFR/meta, QCLASS ANY/CH, NOTIFY/UPDATE-shaped, two questions, misplaced OPT/TSIG, header only, answers of more than 16 KiB made of name-bearing records, question-less requests with OPT (odd versions) or TSIG) x {} configurations (empty catalog; loaded/NotYetLoaded/FailedToLoad entries; zones with malformed stored RDATA in classes IN and CH, missing or malformed SOA; two configurations whose zones are drawn from a seed per request shape: every owner the corpus asks about holds 0-3 RRsets of assorted types with valid, cut, empty, random, pointer-bearing or over-long RDATA; key sets; RRL slip 0/1/2; payload 512/1232/65535); per pair, exhaustively: truncation to every length, at every offset substitution by 10 values, each header count set to 0/+1/0xffff, every RR's RDLENGTH set to 0..80, the advertised EDNS payload size set to every value 0..1400 (+ large ones), junk of 1/2/11/300 octets appended, tail duplicated, both transports; then seeded random pairs of those faults. Every pair is non-trivial and distinct by construction", 200, N_CFG)
     }
     fn assumptions() -> Vec<String> {
         vec![
